@@ -134,7 +134,7 @@ def check_C13(tier):
         multiconn_model(res, 2, 3, 3, 1, "2_3_3")
         multiconn_model(res, 1, 3, 3, 1, "live3", live=True)
     # (2) real clients: 2..16 / 2..64 concurrent, unix and tcp, with idle / silent / disconnecting / garbage peers
-    plan = [(2, 0, 60, "unix"), (8, 4, 240, "unix"), (16, 8, 320, "unix"), (8, 4, 160, "tcp")]
+    plan = [(2, 0, 60, "unix"), (8, 5, 240, "unix"), (16, 10, 320, "unix"), (8, 5, 160, "tcp")]
     if thorough:
         plan = [(2, 0, 200, "unix"), (8, 4, 800, "unix"), (16, 8, 1600, "unix"), (32, 12, 1600, "unix"), (64, 16, 1920, "unix"),
                 (8, 4, 800, "tcp"), (32, 8, 1280, "tcp"), (64, 16, 1280, "tcp")]
